@@ -8,6 +8,21 @@ use emmylua_code_analysis::{
 use emmylua_parser::VisibilityKind;
 use rowan::TextRange;
 
+/// Order seam (verification only). `list` was built by iterating a hash collection; the harness
+/// dictates the relative order of the entries that get exported (`exported`), every other entry stays
+/// where it is and nothing is added or removed. Identity unless an order was installed for `site` on
+/// this thread.
+#[cfg(feature = "verif-hooks")]
+fn order_seam<T: Clone>(site: &'static str, list: &mut [T], exported: impl std::ops::Fn(&T) -> bool) {
+    let slots: Vec<usize> = (0..list.len()).filter(|&i| exported(&list[i])).collect();
+    let mut chosen: Vec<T> = slots.iter().map(|&i| list[i].clone()).collect();
+    crate::verif_api::note_seam(site, chosen.len());
+    emmylua_code_analysis::verif_hooks::permute(site, &mut chosen);
+    for (slot, item) in slots.into_iter().zip(chosen) {
+        list[slot] = item;
+    }
+}
+
 pub fn export(db: &DbIndex) -> Index {
     Index {
         modules: export_modules(db),
@@ -21,6 +36,14 @@ fn export_modules(db: &DbIndex) -> Vec<Module> {
     let type_index = db.get_type_index();
     let module_index = db.get_module_index();
     let modules = module_index.get_module_infos();
+    #[cfg(feature = "verif-hooks")]
+    let modules = {
+        let mut modules = modules;
+        order_seam("doc_export.modules", &mut modules, |module| {
+            module_index.is_main(&module.file_id) && module.export_type.is_some()
+        });
+        modules
+    };
     let vfs = db.get_vfs();
 
     modules
@@ -68,6 +91,17 @@ fn export_types(db: &DbIndex) -> Vec<Type> {
     let type_index = db.get_type_index();
     let module_index = db.get_module_index();
     let types = type_index.get_all_types();
+    #[cfg(feature = "verif-hooks")]
+    let types = {
+        let mut types = types;
+        order_seam("doc_export.types", &mut types, |type_decl| {
+            type_decl
+                .get_locations()
+                .iter()
+                .any(|loc| module_index.is_main(&loc.file_id))
+        });
+        types
+    };
 
     types
         .into_iter()
@@ -97,6 +131,14 @@ fn export_globals(db: &DbIndex) -> Vec<Global> {
     let type_index = db.get_type_index();
     let vfs = db.get_vfs();
     let globals = global_index.get_all_global_decl_ids();
+    #[cfg(feature = "verif-hooks")]
+    let globals = {
+        let mut globals = globals;
+        order_seam("doc_export.globals", &mut globals, |global| {
+            module_index.is_main(&global.file_id)
+        });
+        globals
+    };
 
     globals
         .into_iter()
